@@ -354,6 +354,49 @@ def check_declared_spaces_order(ctx):
                                   "inner": repr(inner.action_space)[:200]}, key="layer-act-space:" + oname)
 
 
+def check_timelimit_coincidence(ctx):
+    """the limit placed ON, one before and one after the step at which the inner episode terminates by itself:
+    find an inner episode (random finite MDP, recorded actions and keys) that terminates at its L-th step, then replay
+    exactly that episode under TimeLimit(N) for N in {L-1, L, L+1}: the truncation flag after step k is k >= N —
+    also on the step on which the inner environment terminates — and the termination flag is the inner one."""
+    rng = ctx.rng
+    found = 0
+    for attempt in range(ctx.budget(40, 160)):
+        if found >= ctx.budget(6, 24):
+            break
+        env0 = random_tabular(rng, p_term=0.3, p_trunc=0.0)
+        env0 = eqx.tree_at(lambda e: e.trunc, env0, jnp.zeros_like(env0.trunc))
+        key = jr.key(int(rng.integers(0, 2**31)))
+        kreset, key = jr.split(key)
+        state, _, _ = env0.reset(key=kreset)
+        actions, keys, L = [], [], None
+        for t in range(10):
+            key, ks = jr.split(key)
+            a = int(rng.integers(0, env0.action_space.n))
+            actions.append(a); keys.append(ks)
+            state, _o, _r, term, _tr, _ = env0.step(state, jnp.asarray(a), key=ks)
+            if bool(term):
+                L = t + 1
+                break
+        if L is None:
+            continue
+        found += 1
+        for N in sorted({max(1, L - 1), L, L + 1}):
+            env = W.TimeLimit(env0, N)
+            st, _, _ = env.reset(key=kreset)
+            for k in range(1, min(L, N) + 1):
+                st, _o, _r, term, trunc, _ = env.step(st, jnp.asarray(actions[k - 1]), key=keys[k - 1])
+                case = {"kind": "timelimit-coincides-with-inner-termination", "N": N, "inner_episode_length": L,
+                        "step": k, "impl": {"terminal": bool(term), "truncate": bool(trunc)},
+                        "expected": {"terminal": k == L, "truncate": k >= N}}
+                ctx.case({"k": "tlc", "a": attempt, "N": N, "step": k}, True, sample=case if (found == 1 and k == N) else None)
+                ctx.count("timelimit:limit-on-termination-step" if (k == L and k == N) else "timelimit:coincidence-steps")
+                if bool(trunc) != (k >= N) or bool(term) != (k == L):
+                    ctx.phi_fail("timelimit_truncates_exactly_at_N", case, key="timelimit:coincidence")
+                if bool(term) or bool(trunc):
+                    break
+
+
 def check_timelimit_large(ctx):
     """exactness for very long limits (beyond float32's 2^24 integer range): the limit's truncation is
     raised at count N and not at N-1, for states placed directly at those counts and reached by one
@@ -525,6 +568,7 @@ def run(ctx):
     for i in range(ctx.budget(6, 24)):
         check_timelimit(ctx, i)
         ctx.gc()
+    check_timelimit_coincidence(ctx)
     check_timelimit_large(ctx)
     check_declared_spaces_order(ctx)
     check_adapters(ctx)
